@@ -6,6 +6,8 @@ import (
 	"net/netip"
 	"os"
 	"reflect"
+	"sort"
+	"strings"
 	"sync"
 	"testing"
 	"time"
@@ -60,8 +62,15 @@ func validReply(c spec.Call, n int) []byte {
 			p[0] = byte((i + n) % 2)
 		case spec.IPv4:
 			copy(p, []byte{192, 168, byte(i + n), 100})
+			if n%2 == 1 {
+				// the addresses every program has a shared copy of (unset, broadcast, loopback, multicast groups, common masks)
+				copy(p, wellKnown[(i+n/2)%len(wellKnown)])
+			}
 		case spec.AddrPort:
 			copy(p, []byte{192, 168, byte(n), 100, 0x61, 0xea})
+			if n%4 == 3 {
+				copy(p, wellKnown[(i+n/4)%len(wellKnown)])
+			}
 		case spec.MAC:
 			copy(p, []byte{0x00, 0x66, 0x19, 0x39, 0x55, byte(0x2d + n)})
 		case spec.Version:
@@ -91,6 +100,8 @@ func validReply(c spec.Call, n int) []byte {
 	}
 	return b
 }
+
+var wellKnown = [][]byte{{0, 0, 0, 0}, {255, 255, 255, 255}, {127, 0, 0, 1}, {224, 0, 0, 1}, {224, 0, 0, 2}, {255, 255, 255, 0}, {255, 0, 0, 0}, {255, 255, 0, 0}}
 
 type held struct {
 	res   api.Result
@@ -148,6 +159,9 @@ func checkHistory(h history) *rp.Fail {
 		serials = append(serials, dv.Serial)
 	}
 	serials = append(serials, 999001, 999002, 424242) // 424242 is the entry the history may insert into a DeviceList() map
+	// the configuration as the client reports it right after construction: whatever the caller does to ITS data afterwards
+	// (device list, door-name slices, maps returned earlier), the client reports the same configuration
+	configured := listCanon(u.DeviceList())
 
 	recheck := func(stage string) *rp.Fail {
 		for _, r := range results {
@@ -252,6 +266,20 @@ func checkHistory(h history) *rp.Fail {
 					observedAfterMutation = true
 				}
 			}
+			// the values are those of the reply (whatever the caller did to earlier results)
+			if res.Err == nil && !res.Nil && res.Rec != nil && len(sends) == 1 && (cs.Call.Op == "GetDevice" || cs.Call.Op == "GetDevices" || cs.Call.Op == "GetListener") {
+				want := spec.Decode(cs.Call, spec.Config{}, validReply(cs.Call, n)).Rec
+				for _, k := range []string{"serial", "address", "mask", "gateway", "mac", "version", "date", "listener", "interval"} {
+					w, ok := want[k]
+					g, ok2 := res.Rec[k]
+					if cs.Call.Op == "GetDevices" {
+						g, ok2 = res.Rec["0."+k]
+					}
+					if ok && ok2 && g != w {
+						return rp.Failf("result/wrong-value-after-earlier-mutation", "step %d: %s returned %s = %q, the reply says %q (mutated earlier results: %v)", n, cs.Call.Op, k, g, w, mutated)
+					}
+				}
+			}
 			if res.Err == nil && !res.Nil && res.Rec != nil && len(sends) == 1 {
 				results = append(results, held{res, res.Rec.String(), fmt.Sprintf("%s (step %d)", cs.Call.Op, n)})
 			}
@@ -308,6 +336,9 @@ func checkHistory(h history) *rp.Fail {
 			}
 			observedAfterMutation = true
 		}
+		if now := listCanon(u.DeviceList()); now != configured {
+			return rp.Failf("configuration/changed-by-later-mutation", "step %d (%s): the client's configuration as reported by DeviceList() changed after the caller modified its own data:\n  at construction: %s\n  now:             %s", n, s.Kind, configured, now)
+		}
 		// results are re-canonicalised from the live objects
 		for i := range results {
 			if r := recanon(results[i].res.Value); r != nil {
@@ -327,6 +358,24 @@ func checkHistory(h history) *rp.Fail {
 		ev.Sample(class, h)
 	}
 	return nil
+}
+
+func listCanon(m map[uint32]uhppote.Device) string {
+	keys := make([]uint32, 0, len(m))
+	for k := range m {
+		keys = append(keys, k)
+	}
+	sort.Slice(keys, func(i, j int) bool { return keys[i] < keys[j] })
+	var b strings.Builder
+	for _, k := range keys {
+		d := m[k]
+		tz := "<nil>"
+		if d.TimeZone != nil {
+			tz = d.TimeZone.String()
+		}
+		fmt.Fprintf(&b, "[%d: name=%q id=%d address=%v doors=%q protocol=%q tz=%s]", k, d.Name, d.DeviceID, d.Address, d.Doors, d.Protocol, tz)
+	}
+	return b.String()
 }
 
 // recanon recomputes the canonical record from the live returned object.
@@ -368,10 +417,25 @@ func mutateValue(v any) {
 		for i := range x.MacAddress {
 			x.MacAddress[i] = 0xee
 		}
+		for i := range x.SubnetMask {
+			x.SubnetMask[i] = 0xed
+		}
+		for i := range x.Gateway {
+			x.Gateway[i] = 0xec
+		}
 	case []types.Device:
 		for _, dv := range x {
 			for i := range dv.IpAddress {
 				dv.IpAddress[i] = 0xee
+			}
+			for i := range dv.SubnetMask {
+				dv.SubnetMask[i] = 0xed
+			}
+			for i := range dv.Gateway {
+				dv.Gateway[i] = 0xec
+			}
+			for i := range dv.MacAddress {
+				dv.MacAddress[i] = 0xeb
 			}
 		}
 	case *types.Status:
@@ -509,6 +573,16 @@ func genHistory(t *rapid.T) history {
 			dv.HasAddr, dv.IP, dv.Port, dv.Protocol = true, [4]byte{0, 0, 0, 0}, 60000, "udp"
 		}
 		h.Cfg.Devices = append(h.Cfg.Devices, dv)
+	}
+	// a controller listed more than once (a merged configuration): the later entry is in effect
+	if len(h.Cfg.Devices) > 0 && rapid.IntRange(0, 2).Draw(t, "duplicate") == 0 {
+		dup := h.Cfg.Devices[rapid.IntRange(0, len(h.Cfg.Devices)-1).Draw(t, "dup.of")]
+		dup.Doors = []string{"north", "south", "east", "west"}[:rapid.IntRange(0, 4).Draw(t, "dup.doors")]
+		if rapid.Bool().Draw(t, "dup.addr") {
+			dup.HasAddr, dup.IP, dup.Port, dup.Protocol = true, [4]byte{10, 0, 2, 99}, 60000, rapid.SampledFrom([]string{"udp", "tcp"}).Draw(t, "dup.protocol")
+		}
+		dup.Name += "-again"
+		h.Cfg.Devices = append(h.Cfg.Devices, dup)
 	}
 	steps := rapid.IntRange(1, 30).Draw(t, "steps")
 	for i := 0; i < steps; i++ {
